@@ -17,10 +17,13 @@ EXTENDS Integers, Sequences, FiniteSets
 -----------------------------------------------------------------------------------
 (* Part 1.  Passwords are strings: "" is the empty password, "p.." a configured clear     *)
 (* text, and "*p" stands for the 41-character text '*' + HEX(SHA1(SHA1(p))) used AS IF it   *)
-(* were a password (somebody who read the configuration).                                  *)
+(* were a password (somebody who read the configuration).  "s:short", "s:long", "s:nonhex" *)
+(* are CLEAR-TEXT passwords that merely look like the hash form: '*' followed by fewer     *)
+(* than 40, more than 40, or 40 not-all-hexadecimal characters; only '*' + 40 hexadecimal  *)
+(* digits is a SHA1 hash, so these are verified like any other clear text.                 *)
 
 Methods == {"native", "sha2"}
-Mods    == {"none", "bitflip", "trunc", "ext21", "ext32"}
+Mods    == {"none", "bitflip", "trunc", "ext21", "extnul", "ext32"}   \* extnul: one 0x00 byte appended
 
 (* the empty response: what both protocols send for the empty password, independent of the salt *)
 Empty == [m |-> "empty", salt |-> "", pw |-> "", mod |-> "none"]
